@@ -38,3 +38,19 @@ Definition chk_C20 (c o : value) : bool :=
       (nenc =? ntls) && (live =? 0) && (http =? 0) && (calls =? ntls) && (answered =? ntls)
   | _ => false
   end.
+
+(* family "tlsraw": a client that drives the TLS library itself.  case ::= ( request ending delayMs pieces expect200 );
+   obs ::= ( handshakeCompleted (calls status body) (calls status body) ), TLS first, the same exchange over plain TCP second.
+   Over the established TLS connection the request is handled exactly as over plain TCP - whatever the record boundaries,
+   and also when the client announces the end of ITS data (close_notify) while it waits for the answer; where the client
+   keeps the connection open (endings 0 and 1) the answer arrives. *)
+Definition chk_tlsraw (c o : value) : bool :=
+  match c, o with
+  | VL [VB _; VI ending; VI _; VL _; VI expect], VL [VI hs; a; b] =>
+      as_bool hs && veqb a b &&
+      (if as_bool expect && (ending <=? 1)
+       then match a with VL [VI calls; VI st; VB body] => (calls =? 1) && (st =? 200) && beq body (B "ok") | _ => false end
+       else true)
+  | VL [VB _; VI _; VI _; VL _; VI _], _ => false
+  | _, _ => true
+  end.
